@@ -14,9 +14,12 @@
 
 /* exception model: throw = set flag + return; callers test the flag (VERIF_PROPAGATE) */
 int verif_exc;
-#define VERIF_THROW do { verif_exc = 1; return VERIF_RV; } while (0)
-#define VERIF_PROPAGATE do { if (verif_exc) return VERIF_RV; } while (0)
+/* VERIF_UNWIND: what stack unwinding runs on the throwing path of the current function (destructors of RAII owners such as std::unique_ptr,
+   rendered per function by the extraction rules; empty by default) */
+#define VERIF_THROW do { verif_exc = 1; VERIF_UNWIND; return VERIF_RV; } while (0)
+#define VERIF_PROPAGATE do { if (verif_exc) { VERIF_UNWIND; return VERIF_RV; } } while (0)
 #define VERIF_RV
+#define VERIF_UNWIND
 
 /* vacuity canary: with -DVERIF_CANARY the end of every harness must be reachable */
 #ifdef VERIF_CANARY
